@@ -8,6 +8,7 @@ pub mod c07;
 pub mod c09;
 pub mod c10;
 pub mod c11;
+pub mod c12;
 pub mod c13;
 pub mod c14;
 pub mod c15;
@@ -28,6 +29,7 @@ pub fn dispatch(env: &Env) -> i32 {
         "C09" => c09::run(env),
         "C10" => c10::run(env),
         "C11" => c11::run(env),
+        "C12" => c12::run(env),
         "C13" => c13::run(env),
         "C14" => c14::run(env),
         "C15" => c15::run(env),
